@@ -81,7 +81,7 @@ func (r *Run) noLeakOnError(key, rule string, fn *ssa.Function, at ssa.Instructi
 
 func c14(r *Run) {
 	w := r.W
-	ro := rolesOf(w)
+	ro := r.roles()
 	px := protoEffects(w)
 	netClose := w.MustFn("(*netFD).Close")
 	isOwnerClose := func(i ssa.Instruction) bool {
@@ -100,7 +100,7 @@ func c14(r *Run) {
 		fn := w.MustFn("sysSocket")
 		socks := findIns(fn, isSysCall("Socket"))
 		if len(socks) != 1 {
-			broken("ANCHOR-LOST C14: %d syscall.Socket calls in sysSocket", len(socks))
+			r.absentf(" C14: %d syscall.Socket calls in sysSocket", len(socks))
 		}
 		created := cmpAtom(errOfCall(socks[0].(ssa.Value), 1), isNilConst, eqRel)
 		r.noLeakOnError("C14.R1:sysSocket", "after syscall.Socket succeeded every error return of sysSocket closes the new descriptor", fn, socks[0], edgesEstablishing(fn, created), isSysCall("Close"), nil)
@@ -109,7 +109,7 @@ func c14(r *Run) {
 		fn := w.MustFn("socket")
 		ss := findIns(fn, func(i ssa.Instruction) bool { return isCall(i, w.MustFn("sysSocket")) })
 		if len(ss) != 1 {
-			broken("ANCHOR-LOST C14: %d sysSocket calls in socket()", len(ss))
+			r.absentf(" C14: %d sysSocket calls in socket()", len(ss))
 		}
 		created := cmpAtom(errOfCall(ss[0].(ssa.Value), 1), isNilConst, eqRel)
 		r.noLeakOnError("C14.R1:socket", "after sysSocket succeeded every error return of socket() closes the descriptor (raw, or through the netFD that adopted it)", fn, ss[0], edgesEstablishing(fn, created), isOwnerClose, nil)
@@ -122,7 +122,7 @@ func c14(r *Run) {
 		fn := w.MustFn("(*sysDialer).dialTCP")
 		is := findIns(fn, func(i ssa.Instruction) bool { return isCall(i, w.MustFn("internetSocket")) })
 		if len(is) < 2 {
-			broken("ANCHOR-LOST C14: %d internetSocket calls in dialTCP", len(is))
+			r.absentf(" C14: %d internetSocket calls in dialTCP", len(is))
 		}
 		failed := anyErrNonNil()
 		for i, c := range is {
@@ -137,7 +137,7 @@ func c14(r *Run) {
 		fn := w.MustFn("(*connection).register")
 		ctl := findIns(fn, func(i ssa.Instruction) bool { return ro.isControl(i, ro.evReadable) })
 		if len(ctl) != 1 {
-			broken("ANCHOR-LOST C14: register() has %d Control(PollReadable)", len(ctl))
+			r.absentf(" C14: register() has %d Control(PollReadable)", len(ctl))
 		}
 		failed := cmpAtom(func(v ssa.Value) bool { return v == ctl[0].(ssa.Value) }, isNilConst, neqRel)
 		r.mustPass("C14.R1:failed-register-closes", "when the poller refuses the registration the connection is closed (descriptor, slot and buffers are given back) and an error is returned", fn, ctl[0], edgesEstablishing(fn, failed),
@@ -237,7 +237,7 @@ func c14(r *Run) {
 		npd := w.MustFn("newPollDesc")
 		allocs := findIns(fn, func(i ssa.Instruction) bool { return isCall(i, npd) })
 		if len(allocs) != 1 {
-			broken("ANCHOR-LOST C14: %d newPollDesc calls in connect", len(allocs))
+			r.absentf(" C14: %d newPollDesc calls in connect", len(allocs))
 		}
 		isDeferFree := func(i ssa.Instruction) bool {
 			d, ok := i.(*ssa.Defer)
